@@ -136,9 +136,6 @@ def parseCidr (s : List Char) : Option Net :=
         let bits := if v4 then 96 + n else n
         some { base := maskTo bits v, bits := bits }
 
-def lastIdx (c : Char) (s : List Char) : Option Nat :=
-  (s.reverse.findIdx? (· == c)).map fun r => s.length - 1 - r
-
 /-- `net.SplitHostPort`, host part only (none = error). -/
 def splitHost (s : List Char) : Option (List Char) :=
   match lastIdx ':' s with
